@@ -199,3 +199,105 @@ Proof.
     + unfold is_dot in En. apply beq_true_iff in En. subst p. reflexivity.
   - cbn [existsb]. rewrite IH. reflexivity.
 Qed.
+
+(* ---- C12: the handle mkdir_all returns is the kernel's in-root resolution of the path in the resulting tree ---- *)
+From PV Require Import StaticBackends DynMkdirAll.
+
+Lemma kwalk_root_slash s nosym o : is_dir s ROOT = true ->
+  FSModel.kwalk s [SLASH] false nosym = WOk o -> o = ROOT /\ FSModel.kwalk_q s false nosym FSModel.KERNEL_LINKS ROOT [[]] = WOk ROOT.
+Proof.
+  intros Hr H. unfold FSModel.kwalk in H. cbn [is_nil raw_components] in H. rewrite N.eqb_refl in H.
+  unfold FSModel.KERNEL_LINKS in *. cbn [FSModel.kwalk_q FSModel.kbody] in H |- *. rewrite Hr in *. cbn [negb is_nil orb] in *.
+  inversion H; subst. split; reflexivity.
+Qed.
+
+Lemma kwalk_root_dot s nosym o : is_dir s ROOT = true -> FSModel.kwalk s [DOT] false nosym = WOk o -> o = ROOT.
+Proof.
+  intros Hr H. unfold FSModel.kwalk in H. cbn [is_nil raw_components] in H. change (N.eqb DOT SLASH) with false in H. cbv iota in H.
+  unfold FSModel.KERNEL_LINKS in H. cbn [FSModel.kwalk_q FSModel.kbody] in H. rewrite Hr in H. cbn [negb is_nil orb] in H.
+  change (is_dot [DOT]) with true in H. cbn [orb] in H. inversion H; reflexivity.
+Qed.
+
+Lemma default_if_nil (rest : bytes) : match (if is_nil rest then None else Some rest) with Some x => x | None => [] end = rest.
+Proof. destruct rest; reflexivity. Qed.
+
+Theorem mkdir_all_handle_is_resolution s s' path nosym o rm c :
+  closed2 s -> is_dir s ROOT = true -> path <> [] ->
+  kpartial s path nosym = KPartial o rm ENOENT ->           (* the partial lookup on the old tree *)
+  extends s s' -> is_dir s o = true ->                      (* what the creation loop did (mk_spec_post) ... *)
+  existsb is_dotdot (parts_of (Some rm)) = false ->
+  descend_dirs s' o (parts_of (Some rm)) = Some c ->        (* ... and where it ended *)
+  FSModel.kwalk s' path false nosym = WOk c.
+Proof.
+  intros Hc Hroot Hne Hkp Hext Hdir Hdd Hdesc.
+  assert (H0 : (ROOT < length (kinds s))%nat) by (destruct Hc as [(H0 & _) _]; exact H0).
+  unfold kpartial in Hkp. destruct (kw s path nosym) as [o'|e0] eqn:Ekw; [discriminate|].
+  destruct (kpartial_go_in s nosym _ _ _ _ _ Hkp) as (a & r & Hin & Hka & Hrm).
+  unfold parts_of in Hdd, Hdesc. rewrite existsb_dotdot_filter in Hdd.
+  assert (Hk : FSModel.kwalk s' path false nosym = FSModel.kwalk_q s' false nosym FSModel.KERNEL_LINKS ROOT (raw_components path)).
+  { unfold FSModel.kwalk. destruct path; [contradiction|reflexivity]. }
+  rewrite Hk. clear Hk Hkp Ekw.
+  assert (Ea : FSModel.kwalk s a false nosym = WOk o).
+  { unfold kw in Hka. destruct (FSModel.kwalk s a false nosym) as [oa| |]; inversion Hka; reflexivity. }
+  clear Hka.
+  destruct (anc_iter_shape path _ _ _ _ Hin) as [(pre & rest & Hpath & Ha & Hr)|[Ha Hr]].
+  - assert (Hrm' : rm = rest) by (rewrite Hrm, Hr; apply default_if_nil).
+    rewrite Hrm' in Hdd, Hdesc. rewrite Hpath, raw_components_app_slash.
+    destruct pre as [|p0 pre'].
+    + (* the path starts with '/': the ancestor is "/" *)
+      cbn [is_nil] in Ha. rewrite Ha in Ea. destruct (kwalk_root_slash s nosym o Hroot Ea) as [Ho Hw]. rewrite Ho in *.
+      apply (resolution_after_mkdir_all s s' nosym _ _ _ ROOT ROOT c Hc Hext H0 Hw Hdir Hdd Hdesc).
+    + cbn [is_nil] in Ha. rewrite Ha in Ea.
+      assert (Hw : FSModel.kwalk_q s false nosym FSModel.KERNEL_LINKS ROOT (raw_components (p0 :: pre')) = WOk o) by exact Ea.
+      apply (resolution_after_mkdir_all s s' nosym _ _ _ ROOT o c Hc Hext H0 Hw Hdir Hdd Hdesc).
+  - (* no slash left: the ancestor is "." and the whole path remains *)
+    rewrite Ha in Ea. pose proof (kwalk_root_dot s nosym o Hroot Ea) as Ho. rewrite Ho in *.
+    assert (Hrm' : rm = path) by (rewrite Hrm, Hr; destruct path; [contradiction|reflexivity]).
+    rewrite Hrm' in Hdd, Hdesc.
+    change (raw_components path) with ([] ++ raw_components path).
+    apply (resolution_after_mkdir_all s s' nosym _ [] _ ROOT ROOT c Hc Hext H0); [destruct FSModel.KERNEL_LINKS; reflexivity|exact Hdir|exact Hdd|exact Hdesc].
+Qed.
+
+(* ---- C12, the whole statement for the kernel backend and a path with a missing tail ------------ *)
+
+Theorem mkdir_all_kernel_post s rp fz pfuel gh ps rs t root path mode o rm exp :
+  fz <> 0%nat -> closed2 s -> is_dir s ROOT = true ->
+  ph_mnt gh = Some PROC_MNT -> ph_openat2 gh = true -> rs_kernel rs = true ->
+  tget t root = Some ROOT -> tget t (ph_fd gh) = Some (PB s) -> has_nul path = false -> path <> [] ->
+  N.ldiff mode MKDIR_ALL_MASK1 = 0 -> N.ldiff mode MKDIR_ALL_MASK2 = 0 ->
+  let nosym := has (N.lor OPENAT2_RESOLVE_RESOLVE (rs_flags rs)) RESOLVE_NO_SYMLINKS in
+  kpartial s path nosym = KPartial o rm ENOENT ->
+  is_dir s o = true -> find_path s o = Some exp -> N.leb READLINK_BUF (N.of_nat (length (render rp exp))) = false ->
+  existsb is_dotdot (parts_of (Some rm)) = false ->
+  let s' := fst (mk_spec s o (parts_of (Some rm))) in
+  (* whatever the outcome: the resulting tree is the old one plus new directories *)
+  extends s s' /\
+  exists t',
+    match snd (mk_spec s o (parts_of (Some rm))) with
+    | inl c => exists fd,
+        Dyn.drun rp {| ds := s; dt := t; dseen := [] |} (root_mkdir_all fz true (S pfuel) gh ps rs root path mode) =
+          DDone {| ds := s'; dt := t'; dseen := [] |} (Ok fd) /\ tget t' fd = Some c /\
+        (* the handle is a directory, and it is the kernel's in-root resolution of the path in the resulting tree *)
+        is_dir s' c = true /\ FSModel.kwalk s' path false nosym = WOk c
+    | inr e =>
+        Dyn.drun rp {| ds := s; dt := t; dseen := [] |} (root_mkdir_all fz true (S pfuel) gh ps rs root path mode) =
+          DDone {| ds := s'; dt := t'; dseen := [] |} (Err (OsError e))
+    end.
+Proof.
+  intros Hfz Hc Hroot Hmnt Ho2 Hk Htr Htp Hnul Hne Hm1 Hm2 nosym Hkp Hdir Hpath Hshort Hdd s'.
+  assert (Holt : (o < length (kinds s))%nat) by (apply is_dir_lt; exact Hdir).
+  assert (Hnulr : forall x, Some rm = Some x -> has_nul x = false).
+  { intros x Ex. inversion Ex; subst x. unfold kpartial in Hkp. destruct (kw s path nosym) as [o'|e0]; [discriminate|].
+    destruct (kpartial_go_in s nosym _ _ _ _ _ Hkp) as (a & r & Hin & _ & Hr). rewrite Hr.
+    destruct r as [x|]; [|reflexivity]. exact (proj2 (partial_ancestors_no_nul path a (Some x) Hnul Hin) x eq_refl). }
+  pose proof (parts_plain (Some rm) Hnulr Hdd) as Hplain.
+  destruct (mk_spec_post (parts_of (Some rm)) s o Hc Holt Hplain) as (Hext & _ & Hpost). fold s' in Hext, Hpost.
+  split; [exact Hext|].
+  destruct (mkdir_all_kernel s rp fz pfuel gh ps rs Hfz Hc Hmnt Ho2 Hk t root path mode o (Some rm) exp Htr Htp Hnul Hm1 Hm2
+              (or_intror (ex_intro _ rm (conj Hkp eq_refl))) Hdir Hpath Hshort Hdd) as (t' & Hres).
+  exists t'. fold s' in Hres. destruct (snd (mk_spec s o (parts_of (Some rm)))) as [c|e].
+  - destruct Hres as (fd & Hrun & Hfd & _). destruct Hpost as [Hdesc Hcdir]. exists fd.
+    split; [exact Hrun|]. split; [exact Hfd|]. split; [exact (Hcdir Hdir)|].
+    exact (mkdir_all_handle_is_resolution s s' path nosym o rm c Hc Hroot Hne Hkp Hext Hdir Hdd Hdesc).
+  - exact (proj1 Hres).
+Qed.
